@@ -239,7 +239,7 @@ Section WhereInv.
   Proof.
     intros H Hi Hw. destruct (analyze_inv _ _ _ _ _ _ H) as (deps & s' & Ha & _ & _).
     unfold analyze_fn_deps in Ha. destruct (no_deps_value o).
-    - injection Ha as _ <-. apply winv_deps_with_generics; assumption.
+    - destruct (p_items (s_inputs s)) as [|[x r m c|x p ty] rest]; try discriminate Ha; injection Ha as _ <-; apply winv_deps_with_generics; assumption.
     - destruct (p_items (s_inputs s)) as [|[x r m c|x p ty] rest]; try discriminate. eapply winv_extract; eassumption.
   Qed.
 
